@@ -694,6 +694,20 @@ func (c *Ctx) VerifyFunction(key string) (*FuncReport, error) {
 			}
 			run.lets[l.Label] = v
 		}
+		if tok := ct.Opts["token"]; tok != "" {
+			// a goroutine body that is started with a wait-group registration holds one token
+			e, err := ParseSpecExpr(tok)
+			if err != nil {
+				return nil, fmt.Errorf("CONTRACT-ERROR %s: token: %v", ct.File, err)
+			}
+			v, err := c.evalSpec(env, e)
+			if err != nil {
+				return nil, fmt.Errorf("CONTRACT-ERROR %s: token: %v", ct.File, err)
+			}
+			th := c.Arr(st, "TokHeld", ArraySort(SInt, SInt))
+			c.SetArr(st, "TokHeld", Store(th, v.t, IntLit(1)))
+			run.tokenWg = v.t
+		}
 		if held := ct.Opts["holds"]; held != "" {
 			// sugar: opt holds <lock-expr>
 			e, err := ParseSpecExpr(held)
@@ -801,6 +815,14 @@ func (c *Ctx) checkPost(o outcome, fn *ssa.Function, ct *Contract, fr0 *Frame) {
 	if ct.HasModifies && !ct.Extern {
 		c.checkFrame(st, fn, ct, env)
 	}
+	if c.cur.tokenWg.S != "" {
+		th := c.Arr(st, "TokHeld", ArraySort(SInt, SInt))
+		c.emit(st, nil, nil, "token", "consumed", Eq(Select(th, c.cur.tokenWg), IntLit(0)), "the wait-group registration of this goroutine is given back (wg.Done) on every path", false)
+	}
+	if ct.Opts["nolocks-at-return"] != "" {
+		h := c.Arr(st, famHeld, ArraySort(SInt, SBool))
+		c.emit(st, nil, nil, "lock", "released-at-return", Eq(h, ConstArray(ArraySort(SInt, SBool), False)), "no lock is held when the function returns", false)
+	}
 }
 
 // checkFrame: a function with an explicit modifies clause may change, among the objects
@@ -808,6 +830,7 @@ func (c *Ctx) checkPost(o outcome, fn *ssa.Function, ct *Contract, fr0 *Frame) {
 func (c *Ctx) checkFrame(st *State, fn *ssa.Function, ct *Contract, env *specEnv) {
 	allowed := map[string][]Term{} // family -> bases that may change
 	anyFam := map[string]bool{}
+	ghostListed := map[string]bool{}
 	saved := env.post
 	env.post = false
 	defer func() { env.post = saved }()
@@ -819,7 +842,10 @@ func (c *Ctx) checkFrame(st *State, fn *ssa.Function, ct *Contract, env *specEnv
 		case "fam":
 			anyFam[strings.TrimSpace(rest)] = true
 			continue
-		case "ghost", "chan", "guarded", "fields", "elems":
+		case "ghost":
+			ghostListed[strings.TrimSpace(rest)] = true
+			continue
+		case "chan", "guarded", "fields", "elems":
 			// ghost state and type-wide items: not object-level
 			if kind == "fields" || kind == "elems" {
 				return
@@ -880,6 +906,10 @@ func (c *Ctx) checkFrame(st *State, fn *ssa.Function, ct *Contract, env *specEnv
 		if anyFam[fam] || strings.HasPrefix(fam, "G|") || strings.HasPrefix(fam, "IT|") {
 			continue
 		}
+		if fw := ws.fams[fam]; fw.freshOnly && !fw.all && len(fw.bases) == 0 {
+			// only objects allocated by this very call are written (by construction of the summary)
+			continue
+		}
 		if fam == famAlloc || fam == famHeld || fam == famWg || fam == famChLen || fam == famChClosed || fam == famChCap || fam == famCtxDone {
 			continue
 		}
@@ -887,6 +917,20 @@ func (c *Ctx) checkFrame(st *State, fn *ssa.Function, ct *Contract, env *specEnv
 		entry, ok2 := st.entry[fam]
 		if !ok1 || !ok2 || cur.S == entry.S {
 			continue
+		}
+		if strings.HasPrefix(fam, "GH|") {
+			if !ghostListed[strings.TrimPrefix(fam, "GH|")] {
+				c.emit(st, nil, nil, "frame", famShort(fam), Eq(cur, entry), "ghost state "+famShort(fam)+" is not listed in the modifies clause", false)
+			}
+			continue
+		}
+		if strings.HasPrefix(fam, "H|") {
+			// lock-protected fields that other goroutines may write are unstable whenever the
+			// lock is not held: they are outside the frame discipline
+			parts := strings.SplitN(fam, "|", 3)
+			if fm := c.FieldAnnos[parts[1]+"|"+parts[2]]; fm != nil && fm.Mode == "guarded_by" && fm.Owned == "" {
+				continue
+			}
 		}
 		q := c.Reg.Fresh("q")
 		conds := []string{"(select " + entryAlloc.S + " " + q + ")"}
